@@ -122,6 +122,9 @@ def handle (j : Json) : Except String Json := do
     let E : Exp := { doc := doc, plat := P, patches := [] }
     let stepsJ ← getArr j "steps"
     let mut S : Session := Session.create N E
+    -- the never-reloaded control: the creating experiment instantiates every iteration itself
+    let mut C : Exp := E
+    let mut loaded := false
     let mut ok := true
     let mut allResolve := resolves N doc P
     let mut out : Array Json := #[]
@@ -130,9 +133,14 @@ def handle (j : Json) : Except String Json := do
       match sj.getObjVal? "iterate" with
       | .ok cj =>
         let cs ← (← cj.getArr?).toList.mapM decComp
+        let hyp := newCompsOk N C.doc P cs
+        let same := cs.all fun c => c.isDoc ||
+          sameComp (flatComp N (addIteration S.exp cs).doc S.exp.plat c) (flatComp N (addIteration C cs).doc P c)
+        C := addIteration C cs
         S := step N S (.iterate cs)
         allResolve := allResolve && resolves N S.exp.doc S.exp.plat
         out := out.push (jobj [("kind", Json.str "iterate"), ("stored", encDoc S.disk),
+          ("byLoaded", jbool loaded), ("newCompsOk", jbool hyp), ("sameAsControl", jbool same),
           ("ids", jarr ((compIds S.exp.doc).map fun (s, n, d) => jarr [jnat s, jnat n, jbool d]))])
       | .error _ =>
         match sj.getObjVal? "load" with
@@ -144,6 +152,7 @@ def handle (j : Json) : Except String Json := do
             out := out.push (jobj [("kind", Json.str "load"), ("loadable", jbool false)])
           else
             S := step N S (.load Q upd)
+            loaded := true
             out := out.push (jobj [("kind", Json.str "load"), ("loadable", jbool true), ("stored", encDoc S.disk),
               ("writable", jbool S.writable),
               ("after", jarr ((runningConfig N S.exp).map encResolved))])
